@@ -10,7 +10,7 @@ Facts are must-facts (join = intersection); asserts are never relied upon.
 import ast
 from typing import Any, Dict, FrozenSet, List, Optional, Sequence, Set, Tuple
 
-from .core import AnalysisError, Loc, Report, norm
+from .core import IdiomNotRecognised, AnalysisError, Loc, Report, norm
 from .flow import Ctx, FlowWalker, State
 from .handlers import (FnRef, HandlerFacts, implementations, is_time_slice_routine, parent_map, stores)
 from .normalize import canon
@@ -44,7 +44,7 @@ class Roles:
         if self.state_attr is None:
             raise AnalysisError(f"{cls.name}: no in-state store routine found (self.<state> = <parameter>)")
         if not self.unit_slice:
-            raise AnalysisError(f"{cls.name}: time-slice routine not found by role")
+            raise IdiomNotRecognised(f"{cls.name}: time-slice routine not found by role")
         # subtree slice: one parameter, calls a slice routine, recursion over .children
         changed = True
         while changed:
